@@ -317,3 +317,100 @@ Print Assumptions C09_chk_solution_full.
 Print Assumptions C09_chk_solution_is_about_R_model.
 Print Assumptions C09_chk_solutions_is_about_R_model.
 Print Assumptions C09_model_solution_unique.
+
+(* ================================================================================================================
+   Tie (T) for the PARALLEL GLUE of nodes/esn.py: _sort_and_unpack, the ESN.run dispatch (with the `return idx, ...` of _run_fn) and the
+   ESN.fit dispatch with its lock rule are GENERATED on this run (coq/gen/Gen_parallel.v, translator tools/vlib/py2coq_par.py, vocabulary
+   coq/base/ParPrelude.v).  `Parallel(...)(delayed(f)(args) for ...)` means: the tasks in generation order, executed in an ARBITRARY order
+   [order] (only assumed to be a permutation of the task numbers) with the results handed back in COMPLETION order -- weaker than joblib's
+   own contract (submission order) on purpose: the clause is that _sort_and_unpack restores input order whatever the order of the pairs.   *)
+From Coq Require String.
+From RV Require Import base.ParPrelude gen.Gen_parallel proofs.Gen_parallel_eq.
+Import String.StringSyntax.
+Delimit Scope string_scope with string.
+
+(* generated _sort_and_unpack (return_states=None, results carrying the `readout` entry) IS the model's sort_and_unpack ... *)
+Theorem C09_generated_sort_and_unpack_is_model {V L RS : Type} (tr : list (nat * V * L)) :
+  2 <= length tr ->
+  GenPar.sort_and_unpack_ (map wrap tr) (@None RS) = Ok (UVal (PList (Conc.sort_and_unpack (map pair_of tr)))).
+Proof. exact (gen_sort_and_unpack_eq_model tr). Qed.
+
+(* ... so C09_results_in_input_order transfers to the code: for every arrival order of the (idx, states, last states) triples *)
+Theorem C09_generated_sort_and_unpack_input_order {V L RS : Type} (outs : list V) (arrived : list (nat * V * L)) :
+  2 <= length outs -> Permutation (map pair_of arrived) (Conc.enumerate outs) ->
+  GenPar.sort_and_unpack_ (map wrap arrived) (@None RS) = Ok (UVal (PList outs)).
+Proof. exact (gen_sort_and_unpack_input_order outs arrived). Qed.
+
+(* one sequence: the item itself, not a list of one *)
+Theorem C09_generated_sort_and_unpack_single {V L RS : Type} (i : nat) (v : V) (l : L) :
+  GenPar.sort_and_unpack_ [wrap (i, v, l)] (@None RS) = Ok (UVal (PItem v)).
+Proof. exact (gen_sort_and_unpack_single i v l). Qed.
+
+(* generated ESN.run: task i carries index i and its own (x_i, forced feedback_i); whatever the execution / completion order of the tasks,
+   the outputs come back in input order and the state carried over to the ESN is the one reached at the end of the LAST input sequence.
+   [body_states] / [body_last] stand for the part of _run_fn that is not translated (it does not mention idx: checked by the translator). *)
+Theorem C09_generated_run_outputs_in_input_order {T_esn T_x T_fb RS T_fs T_st T_re T_sh V L1 L2 : Type}
+    (body_states : T_esn -> T_x -> T_fb -> option RS -> T_fs -> T_st -> T_re -> T_sh -> pdict V)
+    (body_last : T_esn -> T_x -> T_fb -> option RS -> T_fs -> T_st -> T_re -> T_sh -> L1 * L2)
+    (self : T_esn) (fs : T_fs) (st : T_st) (re : T_re) (sh : T_sh) (out : T_x -> T_fb -> V) :
+  (forall x y, body_states self x y None fs st re sh = [("readout"%string, out x y)]) ->
+  forall (order : list nat) (X : list T_x) (F : list T_fb) (xl : T_x) (yl : T_fb),
+  2 <= length (combine X F) ->
+  Permutation order (seq 0 (length (combine X F))) ->
+  list_last (combine X F) = Ok (xl, yl) ->
+  GenPar.ESN_run body_states body_last order self X F fs st re sh None =
+    Ok (fst (body_last self xl yl None fs st re sh), snd (body_last self xl yl None fs st re sh),
+        UVal (PList (map (fun p => out (fst p) (snd p)) (combine X F)))).
+Proof. exact (gen_ESN_run_input_order body_states body_last self fs st re sh out). Qed.
+
+(* generated lock rule of ESN.fit = the condition under which the schedule model runs with [use_lock = true] *)
+Theorem C09_generated_fit_lock_rule (workers : Z) (backend : option String.string) :
+  GenPar.ESN_fit_use_lock workers backend =
+  (((1 <? workers)%Z || (workers <? 0)%Z) &&
+   negb (match backend with Some b => String.eqb b "sequential"%string | None => false end))%bool.
+Proof. exact (gen_fit_lock_rule workers backend). Qed.
+
+(* generated fit dispatch: the k-th task is given sequence k's own (x_k, y_k), the one shared lock (or None) and the warm-up *)
+Theorem C09_generated_fit_task_gets_its_own_sequence {T_esn T_x T_y LK T_w : Type} (new_lock : LK) (self : T_esn) (X : list T_x) (Y : list T_y)
+    (warmup : T_w) (workers : Z) (backend : option String.string) (k : nat) (x : T_x) (y : T_y) :
+  nth_error X k = Some x -> nth_error Y k = Some y ->
+  nth_error (GenPar.ESN_fit_tasks new_lock self X Y warmup workers backend) k =
+    Some (self, x, y, (if GenPar.ESN_fit_use_lock workers backend then Some new_lock else None), warmup)
+  /\ length (GenPar.ESN_fit_tasks new_lock self X Y warmup workers backend) = Nat.min (length X) (length Y).
+Proof. intros a b. rewrite gen_fit_lock_rule. exact (gen_fit_tasks_own_data new_lock self X Y warmup workers backend k x y a b). Qed.
+
+(* non-vacuity: three sequences executed in the order 2, 0, 1 *)
+Example C09_generated_run_example :
+  GenPar.ESN_run (RS := unit) (fun (_ : unit) (x : nat) (y : nat) _ (_ _ _ _ : unit) => [("readout"%string, 10 * x + y)])
+                 (fun _ x y _ _ _ _ _ => (x, y)) [2; 0; 1] tt [1; 2; 3] [4; 5; 6] tt tt tt tt None
+  = Ok (3, 6, UVal (PList [14; 25; 36])).
+Proof. vm_compute. reflexivity. Qed.
+
+Print Assumptions C09_generated_sort_and_unpack_is_model.
+Print Assumptions C09_generated_sort_and_unpack_input_order.
+Print Assumptions C09_generated_sort_and_unpack_single.
+Print Assumptions C09_generated_run_outputs_in_input_order.
+Print Assumptions C09_generated_fit_lock_rule.
+Print Assumptions C09_generated_fit_task_gets_its_own_sequence.
+
+(* generated ESN.fit, world-passing reading ([pf] = _run_partial_fit_fn, [ib] = initialize_buffers, [cb] = readout.clean_buffers, [rf] = readout.fit):
+   when a task fails, the exception leaves ESN.fit and the partial sums have been cleaned (clean_buffers applied to the world the failure left) *)
+Theorem C09_generated_fit_failure_cleans_buffers {W LS T_esn T_x T_y LK T_w : Type}
+    (pf : T_esn * T_x * T_y * option LK * T_w -> W -> W * res LS) (ib cb rf : W -> W) (srs : LS -> W -> W)
+    (order : list nat) (nl : LK) (self : T_esn) (X : list T_x) (Y : list T_y) (wu : T_w) (workers : Z)
+    (backend : option String.string) (w w' : W) (e : pexc) :
+  parallel_w order pf (GenPar.ESN_fit_tasks nl self X Y wu workers backend) (ib w) = (w', Raise e) ->
+  GenPar.ESN_fit pf ib cb rf srs order nl self X Y wu workers backend w = (cb w', Raise e).
+Proof. exact (gen_fit_failure_cleans pf ib cb rf srs order nl self X Y wu workers backend w w' e). Qed.
+
+(* ... and when every task completes, the buffers are NOT cleaned before readout.fit: the world handed to it is the one the tasks left *)
+Theorem C09_generated_fit_success_fits_accumulated_buffers {W LS T_esn T_x T_y LK T_w : Type}
+    (pf : T_esn * T_x * T_y * option LK * T_w -> W -> W * res LS) (ib cb rf : W -> W) (srs : LS -> W -> W)
+    (order : list nat) (nl : LK) (self : T_esn) (X : list T_x) (Y : list T_y) (wu : T_w) (workers : Z)
+    (backend : option String.string) (w w' : W) (ls : list LS) (l : LS) :
+  parallel_w order pf (GenPar.ESN_fit_tasks nl self X Y wu workers backend) (ib w) = (w', Ok ls) -> list_last ls = Ok l ->
+  GenPar.ESN_fit pf ib cb rf srs order nl self X Y wu workers backend w = (rf (srs l w'), Ok tt).
+Proof. exact (gen_fit_success pf ib cb rf srs order nl self X Y wu workers backend w w' ls l). Qed.
+
+Print Assumptions C09_generated_fit_failure_cleans_buffers.
+Print Assumptions C09_generated_fit_success_fits_accumulated_buffers.
